@@ -44,6 +44,15 @@ def storeEffects (b : MvccBk) (s : String) (toks : List String) : Option (MvccSt
       if out != "ok" then none else
       match argOf toks "churn" with
       | none => some (d, c)
+      | some "each" =>
+        -- every item of the stored snapshot is deleted right after it has been written, each time followed by a
+        -- snapshot that is cut and released (use conc=1: the order of the callbacks is then the content order)
+        let d' := c.foldl (fun d v =>
+          let d1 := (mvccStep d ["del", "0", toString v.key]).1
+          let (d2, o2) := mvccStep d1 ["snap"]
+          let sn2 := (natArg (tokens o2) "sn").getD 0
+          (mvccStep d2 ["close", toString sn2]).1) d
+        some (d', c)
       | some ks =>
         let keys := if ks == "." then some [] else (splitOnChar ks ',').mapM String.toNat?
         match keys with
